@@ -131,8 +131,14 @@ class SimComm:
 class Execution:
     """One complete execution under a given schedule prefix."""
 
-    def __init__(self, k, program, semantics, prefix, record_states=True):
+    def __init__(self, k, program, semantics, prefix, record_states=True, switch_in=None, switch_out=None,
+                 hooks_factory=None):
+        """switch_in(rank) / switch_out(rank): called whenever a rank gets / gives up the
+        baton -- used to emulate per-process global state (e.g. nifty.cl.random) per rank."""
         self.k, self.program, self.semantics = k, program, semantics
+        self.switch_in, self.switch_out = switch_in, switch_out
+        if hooks_factory is not None:      # fresh per-rank state for every execution
+            self.switch_in, self.switch_out = hooks_factory()
         self.prefix = list(prefix)
         self.green = _greenlet is not None and not FORCE_THREADS
         # raw locks used as binary semaphores (threading.Semaphore is ~50x slower)
@@ -157,7 +163,11 @@ class Execution:
         self.pending[rank] = req
         self.rank_trace[rank].append((req.kind, req.peer if req.peer is not None else req.root))
         if self.green:
+            if self.switch_out:
+                self.switch_out(rank)
             self.main_gl.switch()
+            if self.switch_in:
+                self.switch_in(rank)
         else:
             self.sched_sem.release()
             self.sems[rank].acquire()
@@ -167,12 +177,16 @@ class Execution:
         return req.result
 
     def _green_body(self, rank):
+        if self.switch_in:
+            self.switch_in(rank)
         try:
             self.results[rank] = self.program(rank, SimComm(self, rank))
         except SimAbort:
             pass
         except BaseException as e:  # noqa
             self.errors[rank] = e
+        if self.switch_out:
+            self.switch_out(rank)
         self.finished[rank] = True
         self.pending[rank] = None
 
@@ -319,7 +333,7 @@ class Execution:
         return self
 
 
-def explore(k, program, semantics, check, state_matching=True, max_exec=None):
+def explore(k, program, semantics, check, state_matching=True, max_exec=None, max_deviations=None, **exec_kw):
     """All interleavings (DFS, re-execution from scratch, optional state
     matching).  `check(execution)` -> None or violation string.  Returns stats."""
     stack = [[]]
@@ -331,7 +345,7 @@ def explore(k, program, semantics, check, state_matching=True, max_exec=None):
             stats["capped"] = True
             break
         prefix = stack.pop()
-        x = Execution(k, program, semantics, prefix).run()
+        x = Execution(k, program, semantics, prefix, **exec_kw).run()
         stats["executions"] += 1
         v = check(x)
         if v:
@@ -349,6 +363,8 @@ def explore(k, program, semantics, check, state_matching=True, max_exec=None):
             stats["states"] += 1
             stats["transitions"] += len(en)
             stats["max_enabled"] = max(stats["max_enabled"], len(en))
+            if max_deviations is not None and sum(1 for c in x.choices[:i] if c != 0) >= max_deviations:
+                continue     # deviation bound: no further departure from the default schedule
             for alt in range(len(en) - 1, 0, -1):
                 stack.append(x.choices[:i] + [alt])
     return stats
